@@ -3,3 +3,4 @@ from . import strings  # noqa: F401
 from . import render  # noqa: F401
 from . import layout  # noqa: F401
 from . import text  # noqa: F401
+from . import attrs  # noqa: F401
